@@ -25,6 +25,17 @@ CHECKS = {
         "Key error hides the value error of the same mapping item (unspecified, not demanded).",
         design="4/C02",
     ),
+    "C03": dict(
+        text="The compiled method tree is executed on JSON data extended with non-JSON kinds (bytes, tuple, str/int/dict "
+        "subclasses, non-string and mixed keys, inf/nan, 10**400, set, object) under a deviation budget, with coerce on/off "
+        "and option sets; asserted per path: the call returns or raises ValidationError (any other exception is a violation), "
+        "the input structure is unchanged, user classes are unchanged, err.errors is computable and well-typed. The "
+        "coercion kernel coerce(cls, data) is also driven as a unit for every primitive cls and data kind.",
+        note="Under coerce=True str / float leaves come from finite pools and ints range over [-99, 99] ([-999, 999] "
+        "thorough) because int(str), str(int), str(float) and dict lookups realise; this part is enumeration by forks. "
+        "Exotic kinds are concrete representatives. User converters/validators that raise are outside the statement.",
+        design="4/C03",
+    ),
 }
 
 NOT_YET = "check not built yet at this commit (work in progress, see DESIGN.md section 4)"
